@@ -129,6 +129,7 @@ def cases(tier, seed):
                     yield ("passive", name, (kind, str(model), sized))
         yield ("sizes", name, None)
         yield ("history", name, None)
+        yield ("lists-arrays-literals", name, None)
         yield ("dispatch", name, None)
 
 
@@ -265,6 +266,56 @@ def check_case(case):
                 if given in seen and seen[given] != want:
                     return (f"{pname}.sizes.one-given", f"{case!r}: {sname} with only {given[0]} given is sized "
                                                         f"(w, l) = {seen[given]}, expected {want} (given value / PDK default)", w)
+        return None
+    if kind == "lists-arrays-literals":
+        # compile() of a LIST of not yet elaborated designs, devices placed through instance arrays, literal-valued sizes
+        req = dict(tp=MosType.NMOS, family=MosFamily.CORE, vth=MosVth.STD)
+        if not P["mos"](h.Mos(**req).params):
+            return None
+
+        def mk(nm, arr):
+            m = h.Module(name=nm)
+            m.d, m.g, m.s, m.b = h.Inouts(4)
+            if arr:
+                m.arr = 3 * h.Mos(**req)(d=m.d, g=m.g, s=m.s, b=m.b)
+            else:
+                m.one = h.Mos(**req)(d=m.d, g=m.g, s=m.s, b=m.b)
+            t = h.Module(name=nm + "Top")
+            t.d, t.g, t.s, t.b = h.Signals(4)
+            t.i = m(d=t.d, g=t.g, s=t.s, b=t.b)
+            return t
+        tops = [mk("LA", True), mk("LB", False), mk("LC", True)]
+        try:
+            P["compile"](tops)
+        except Exception as e:
+            return (f"{pname}.list.raises", f"{case!r}: compile of a list: {type(e).__name__}: {str(e)[:100]}", w)
+        for t in tops:
+            h.elaborate(t)
+            for pth, tg in leaf_targets(t).items():
+                if isinstance(tg, h.PrimitiveCall) and tg.prim is h.primitives.Mos:
+                    return (f"{pname}.list.not-replaced", f"{case!r}: compile([...]) left a generic Mos at {'/'.join(pth)} "
+                                                          f"(a device placed through an instance array)", w)
+        # literal-valued sizes reach the device as given (Sky130 documents its micron scaling of literals).  Only the two
+        # PDKs whose walkers have a rule for literals are held to it (the sample PDK and ASAP7 validate sizes numerically)
+        if pname not in ("sky130", "gf180"):
+            return None
+        lit_w, lit_l = h.Literal("wn"), h.Literal("ln")
+        top = design(h.Mos(**req, w=lit_w, l=lit_l), depth=1, shared=False)
+        try:
+            P["compile"](top)
+        except Exception as e:
+            return (f"{pname}.literal-size.raises", f"{case!r}: {type(e).__name__}: {str(e)[:100]}", w)
+        dev = [t for pth, t in leaf_targets(top).items() if pth[-1] == "dev"][0]
+        prm = dev.params
+        getp = (lambda n: prm.get(n)) if isinstance(prm, dict) else (lambda n: getattr(prm, n, None))
+        for n, lit in (("w", lit_w), ("l", lit_l)):
+            got = getp(n)
+            if got is None and pname == "asap7":
+                continue
+            text = getattr(got, "text", None)
+            ok = (text is not None and lit.text in text) if pname == "sky130" else (text == lit.text)
+            if not ok:
+                return (f"{pname}.literal-size", f"{case!r}: {n}={lit.text!r} reaches the device as {got!r}", w)
         return None
     if kind == "history":
         # earlier walks of the same design objects leave no trace: a read-only user walker before compile, and a compile
